@@ -28,9 +28,11 @@ def check(repo: Repo, rep, tier):
     from .C03 import io_encoding
 
     io_encoding(repo, rep)
-    from .C03 import char_units, range_prov, line_model
+    from .C03 import char_units, range_prov, line_model, element_parens
 
     line_model(repo, rep)
+    # a string that black wrapped in parentheses is one element: an edit next to it must not cut the parentheses apart
+    element_parens(repo, rep)
 
     # the literal has to land on the characters of the old one: positions in character units
     range_prov(repo, rep)
@@ -296,6 +298,9 @@ def escape_once(repo: Repo, rep):
         # (b) escape of the last character
         for a in cfg.stmts(ast.Assign):
             x = _is_backslash_prefix(a.ast.value)
+            if isinstance(x, ast.Name):
+                # the last character held in a local: `last = s[-1]` ... `s[:-1] + "\\" + last`
+                x = resolve_alias(cfg, a, x)
             if not (isinstance(x, ast.Subscript) and isinstance(x.slice, ast.UnaryOp) and isinstance(x.slice.op, ast.USub)):
                 continue
             n += 1
@@ -312,6 +317,7 @@ def escape_once(repo: Repo, rep):
                     construct="final-quote",
                 )
     rep.count("final_quote_escapes", n)
+    rep.floor("R-ESCAPE-ONCE", "escapes of the final character in the string-literal helper", n, 1)
 
 
 def escape_nonprintable(repo: Repo, rep):
